@@ -23,7 +23,9 @@ EffOffset(calls, cur) ==
 
 \* v > gt, or (eq >= 0) the two conditions v > gt OR v = eq joined by Or in the chain  (-1 stands for NULL)
 \* cond.lone: the chain's only condition is Or(v = eq) -- a lone Or reads as that condition
-Matches(r, cond) == ~cond.on \/ (r.v # -1 /\ (IF cond.lone THEN r.v = cond.eq ELSE (r.v > cond.gt \/ (cond.eq >= 0 /\ r.v = cond.eq))))
+\* cond.ne: Where(v > gt).Or(v = eq).Where(v <> ne) = a OR (b AND c)
+Matches(r, cond) == ~cond.on \/ (r.v # -1 /\ (IF cond.lone THEN r.v = cond.eq
+                                                     ELSE (r.v > cond.gt \/ (cond.eq >= 0 /\ r.v = cond.eq /\ (cond.ne < 0 \/ r.v # cond.ne)))))
 SelSeq(tbl, cond) == SelectSeq(tbl, LAMBDA r : Matches(r, cond))          \* key order (the table is sorted by id)
 Ids(rows) == [i \in DOMAIN rows |-> rows[i].id]
 Rev(s) == [i \in DOMAIN s |-> s[Len(s) + 1 - i]]
